@@ -12,14 +12,14 @@ RULE = ('Same generator family as C04 (limits often not binding, chains hanging 
         'or released task is outstanding) the number of tasks inside run() must reach min(max_workers, submitted-unfinished); not '
         'reaching it counts only after >= 10 further idle polling rounds and >= 20 s (normal: < 50 ms). Non-trivial = a resting '
         'point where a task unblocked by the previous completion batch is running, or where a queued task took a freed slot. '
-        'Distinct = hash of (engine, spec). Engine fork+stagger: k = 5-8 gated tasks fill max_workers; a helper thread releases '
-        'them one by one every 0.25 s while the runner is polled with the 0.5 s timeout Lab itself uses; a task queued behind '
-        'max_workers (or a dependent of the first released task, with a spare slot) must be inside run() by the time the LAST of the k '
-        'is about to be released (>= 1 s after the first completion; normal: < 50 ms). "Not started" counts only if it reproduces in '
-        'three consecutive executions of the case. Non-trivial there = every stagger case.')
+        'Distinct = hash of (engine, spec). Engine fork+stagger: k = 6-8 gated tasks fill max_workers with up to k-1 tasks queued behind them (or dependents of the first, '
+        'with spare slots); a helper thread releases the k one by one every 0.4 s - the first optionally dies outright - while the runner is polled with the 0.5 s '
+        'timeout Lab itself uses; just before each release (from the third on) the number of queued tasks inside run() is compared with the capacity freed by the '
+        'steps released at least 0.4 s earlier (normal latency < 50 ms). Violation only if the count falls short at EVERY sampling instant (>= 4, spanning >= 1.2 s) '
+        'in three consecutive executions of the case. Non-trivial there = every stagger case.')
 ASSUMPTIONS = ['the 20 s patience is a pass-only margin: normal start-up latency is < 50 ms (fork) / < 1 s (spawn)',
-               'fork+stagger: a start-up latency of a forked worker above (k-1) x 0.25 s >= 1 s, three times in a row, is taken as "waits for '
-               'unrelated tasks to finish" (normal latency < 50 ms)']
+               'fork+stagger: freed capacity staying unused for >= 0.4 s at every one of >= 4 consecutive sampling instants, three executions in a '
+               'row, is taken as "waits for unrelated tasks to finish" (normal start latency < 50 ms)']
 
 
 def check(spec: dict) -> core.CaseResult:
@@ -42,20 +42,23 @@ def stagger_strategy():
 
     @st.composite
     def gen(draw):
-        k = draw(st.integers(5, 8))
-        dependent = draw(st.booleans())       # the probe depends on the first released step (spare slot) / is queued behind max_workers
+        k = draw(st.integers(6, 8))
+        dependent = draw(st.integers(0, 3)) == 0   # the probes depend on the first released step (spare slots) / are queued behind max_workers
+        first_dies = (not dependent) and draw(st.integers(0, 2)) > 0      # the first released step is killed outright instead of finishing
         nodes = [{'id': i, 'type': draw(st.sampled_from(['NN', 'N'])), 'name': f's{i}', 'mode': 'ok', 'read': True, 'payload': i, 'deps': {'s': None}}
                  for i in range(k)]
         order = list(draw(st.permutations(list(range(k)))))
-        n_probe = draw(st.integers(1, 2))
+        if first_dies:
+            nodes[order[0]]['mode'] = draw(st.sampled_from(['kill9', 'exit0']))
+        n_probe = draw(st.integers(1, 2)) if dependent else draw(st.integers(k - 2, k - 1))
         for j in range(n_probe):
             deps = {'list': [{'ref': order[0], 'fresh': False}]} if dependent else {'s': None}
-            nodes.append({'id': k + j, 'type': draw(st.sampled_from(['NN', 'N1'])) if j == 0 else 'NN', 'name': f'q{j}', 'mode': 'ok', 'read': True,
-                          'payload': 0, 'deps': deps})
+            nodes.append({'id': k + j, 'type': 'NN', 'name': f'q{j}', 'mode': 'ok', 'read': True, 'payload': 0, 'deps': deps})
         lab = {'backend': 'fork', 'max_workers': k + n_probe if dependent else k, 'continue_on_failure': True, 'bust_cache': False,
                'storage': draw(st.sampled_from(['local', 'none'])), 'displays': False, 'context': {}}
         return {'nodes': nodes, 'requested': [{'ref': i, 'fresh': False} for i in range(k + n_probe)], 'lab': lab, 'pre_cached': [],
-                'schedule': [], 'stagger': {'k': k, 'order': order, 'interval': 0.25, 'dependent': dependent, 'probes': [f'q{j}' for j in range(n_probe)]}}
+                'schedule': [], 'stagger': {'k': k, 'order': order, 'interval': 0.4, 'dependent': dependent, 'first_dies': first_dies,
+                                            'probes': [f'q{j}' for j in range(n_probe)]}}
     return gen()
 
 
@@ -67,31 +70,30 @@ def stagger_once(spec: dict):
     from pbt.universe import vu
     sg = spec['stagger']
     steps = [f's{i}' for i in sg['order']]
-    st_ = {'armed': False, 'done': False, 'verdict': None}
-
-    def inside(obs_dir):
-        return {r[1] for r in vu.read_trace(obs_dir) if r[0] == 'S'}
+    st_ = {'armed': False, 'done': False, 'samples': None}
 
     def hook(spy, blocked, unfinished):
         spy.hold_gates = True
         if not st_['armed']:
+            st_['armed'] = True
             if not set(steps) <= set(blocked):
                 # not every step is inside run() yet (C05's resting-point clause judges that elsewhere): keep things moving
                 spy._release(sorted(blocked))
-                st_['verdict'] = 'not-armed'
                 st_['done'] = True
-                st_['armed'] = True
                 return
-            st_['armed'] = True
             spy.poll_timeout = 0.5      # the timeout Lab.run_tasks itself passes to Runner.wait()
+            st_['samples'] = []
 
             def drive():
                 for i, n in enumerate(steps):
                     if i:
                         time.sleep(sg['interval'])
-                    if i == len(steps) - 1:
-                        started = inside(spy.ctl.obs_dir)
-                        st_['verdict'] = sorted(q for q in sg['probes'] if q not in started)
+                    if i >= 2:
+                        # steps 0..i-1 were released at least one interval ago: each has freed a worker slot (or made the probes runnable)
+                        started = {r[1] for r in vu.read_trace(spy.ctl.obs_dir) if r[0] == 'S'}
+                        have = sum(1 for q in sg['probes'] if q in started)
+                        want = len(sg['probes']) if sg['dependent'] else min(len(sg['probes']), i)
+                        st_['samples'].append((i, want, have))
                     spy.ctl.log('release', [n], 'stagger')
                     spy._release([n])
                 st_['done'] = True
@@ -100,27 +102,31 @@ def stagger_once(spec: dict):
             spy._release(sorted(blocked))
 
     obs = dagrun.execute_case(spec, gated=True, rest_hook=hook, deadline_s=90)
-    return obs, st_['verdict']
+    return obs, st_['samples']
 
 
 def check_stagger(spec: dict) -> core.CaseResult:
-    missing_runs = []
+    lagging_runs = []
     obs = None
     for attempt in range(3):
-        obs, verdict = stagger_once(spec)
+        obs, samples = stagger_once(spec)
         if obs.timeout:
             return dagprop.result(obs, [], False, ['engine=stagger'], hang_is_violation=True, prop='C05')
-        if verdict == 'not-armed' or verdict is None:
+        if not samples:
             return core.CaseResult(labels=('engine=stagger', 'stagger-not-armed'), summary=obs.summary())
-        if not verdict:
+        if not all(have < want for _, want, have in samples):
             break
-        missing_runs.append(verdict)
+        lagging_runs.append(samples)
+    sg = spec['stagger']
     findings = []
-    if len(missing_runs) == 3:
+    if len(lagging_runs) == 3:
+        span = (sg['k'] - 3) * sg['interval']
         findings.append(core.Finding('C05:fork:runnable-task-waits-for-unrelated-tasks-to-finish',
-                                     f'{missing_runs[0]} not inside run() when the last of {spec["stagger"]["k"]} staggered tasks was about to be '
-                                     f'released ({(spec["stagger"]["k"] - 1) * spec["stagger"]["interval"]:.2f} s after the first), 3 executions in a row'))
-    labels = ['engine=stagger', f'k={spec["stagger"]["k"]}', f'dependent={spec["stagger"]["dependent"]}', f'attempts={len(missing_runs) + (0 if findings else 1)}']
+                                     f'at every one of the {len(lagging_runs[0])} sampling instants (spanning {span:.1f} s, each >= {sg["interval"]} s after the '
+                                     f'completion that freed the capacity) fewer queued tasks were inside run() than free capacity allowed '
+                                     f'(step, allowed, inside): {lagging_runs[0]}; 3 executions in a row'))
+    labels = ['engine=stagger', f'k={sg["k"]}', f'dependent={sg["dependent"]}', f'first_dies={sg.get("first_dies", False)}',
+              f'attempts={len(lagging_runs) + (0 if findings else 1)}']
     return core.CaseResult(findings=findings, nontrivial=True, labels=tuple(labels), summary=obs.summary())
 
 
@@ -129,7 +135,7 @@ def plan(tier: str) -> list[dict]:
     jobs = list(dagprop.std_plan(tier, controlled=(8, 150, 2500), serial=(1, 40, 800), fork=(0, 0, 0), spawn=(0, 0, 0),
                                  gated_fork=(4, 12, 400), gated_spawn=(1, 3, 60))) + dagprop.exhaustive_jobs(tier, 4)
     jobs += [{'engine': 'executor-machine', 'n': 12 if q else 400, 'steps': 14 if q else 30, 'hashseed': i} for i in range(2)]
-    jobs += [{'engine': 'fork+stagger', 'n': 5 if q else 60, 'hashseed': 3 + i} for i in range(1 if q else 2)]
+    jobs += [{'engine': 'fork+stagger', 'n': 6 if q else 60, 'hashseed': 3 + i} for i in range(1 if q else 2)]
     return jobs
 
 
